@@ -159,7 +159,11 @@ def run(ctx, R, tier):
     # propagated out of run() like a decode error (the C10 rule); a seek request is written whatever position the handle last saw
     from .c10 import err_propagation
     err_propagation(F, R)
+    decode_arith(ctx, R)
     from .c07 import write_unconditional
+    # 'after any sequence of seeks': every seek command is polled on every turn, relative before absolute
+    from .c09 import transport_cmd_order
+    transport_cmd_order(F, R, rule='B.C18.order')
     write_unconditional(F, R, rule='B.C18.cmd', floor=2, fn_filter=lambda q: 'sound::streaming::handle' in q and q.split('::')[-1].startswith('seek'))
     # 'after any sequence of seeks': a relative seek starts from the published playback position, which is published at full width
     from .c05 import published_width
@@ -168,6 +172,36 @@ def run(ctx, R, tier):
     from .c09 import frame_source, sib_data
     frame_source(F, R)
     sib_data(F, R, rule='B.C18.sib-data')
+
+
+def decode_arith(ctx, R, rule='B.C18.arith'):
+    """'never a panic': the file-decoding code (the symphonia decoder of streaming sounds, the loaders of static sounds, the
+    sample-format conversion) contains no arithmetic or indexing that can panic - analysed in the overflow-checks
+    configuration, where every `+`, `-`, `*`, `/`, `%`, shift and index of the source is an assert in the MIR.  There is none
+    today: a count, a subtraction or an index computed from what a file's header claims (zero frames, zero channels) is an
+    obligation the moment it appears."""
+    Fo = ctx.facts('default-ovf')
+    total = 0
+    fns = 0
+    for b in Fo.bodies:
+        if b.krate != 'kira':
+            continue
+        asserts = [(i, blk['term']) for i, blk in enumerate(b.blocks) if blk['term']['k'] == 'assert' and not blk.get('cleanup')]
+        total += len(asserts)
+        if not ('ymphonia' in b.path or 'from_file' in b.path):
+            continue
+        fns += 1
+        seen = {}
+        for i, t in asserts:
+            kind = str(t.get('msg') or t.get('kind') or 'assert').split('(')[0]
+            seen[kind] = seen.get(kind, 0) + 1
+            R.check(False, rule, '%s|%s#%d' % (b.path.split('::{closure')[0].split('::')[-1].strip('>'), kind, seen[kind]),
+                    '%s can panic (%s) on a value that comes from the file being decoded: a malformed or empty file must give an error or the '
+                    'valid prefix, never a panic' % (b.path, str(t.get('msg') or t.get('kind'))[:80]), where=b.where(i))
+    # non-vacuity: the configuration really has its arithmetic checks on, and the decoding functions were seen
+    R.check(total >= 50, rule, 'control:asserts-on', 'only %d asserts in the overflow-checks facts: the configuration is not what it says' % total,
+            detail={'asserts_in_kira': total})
+    R.floor(rule + '.fns', fns, 12)
 
 
 def rate_rule(F, R):
